@@ -607,3 +607,91 @@ Proof.
   - intros x. cbn [scopes_get]. rewrite bound_scope_lookup by assumption.
     destruct (assoc x (combine _ _)) as [[t v]|]; reflexivity.
 Qed.
+
+(* the inside of a call bracket never changes a frame below the new one *)
+Lemma call_inside_below funcs k ps vs body :
+  respects below_kept (bind_params (eval funcs k) ps vs ;;; exec_list (exec funcs k) body).
+Proof.
+  apply (r_bind _ below_kept_trans).
+  - apply (r_bind_params below_kept below_kept_refl below_kept_trans declare_below). apply (proj1 (below_kept_all funcs k)).
+  - intros _. apply (r_exec_list below_kept below_kept_refl below_kept_trans). apply (proj2 (below_kept_all funcs k)).
+Qed.
+Lemma eval_args_frames funcs k ps es : respects frames_same (eval_args (eval funcs k) ps es).
+Proof. apply (r_eval_args frames_same frames_same_refl frames_same_trans). apply eval_frames_exact. Qed.
+
+(* expressions yield a value or fail: break / continue / return never escape an expression *)
+Definition val_or_fail {A} (c : ctl A) : Prop := match c with Val _ | Fail _ => True | _ => False end.
+Definition vf {A} (m : M A) : Prop := forall s, val_or_fail (fst (m s)).
+Lemma vf_bind {A B} (m : M A) (f : A -> M B) : vf m -> (forall a, vf (f a)) -> vf (bind m f).
+Proof.
+  intros Hm Hf s. unfold bind. specialize (Hm s). destruct (m s) as [c s1]. cbn in Hm. destruct c; try contradiction; cbn; [apply Hf|exact I].
+Qed.
+Lemma vf_ret {A} (a : A) : vf (ret a). Proof. intros s. exact I. Qed.
+Lemma vf_fail {A} e : vf (@fail A e). Proof. intros s. exact I. Qed.
+Lemma chk_vf z : val_or_fail (chk z). Proof. unfold chk. destruct (in64 z); exact I. Qed.
+Lemma arith_vf o a b : val_or_fail (arith o a b).
+Proof.
+  destruct o; cbn; try apply chk_vf; try exact I.
+  - destruct (b =? 0); [exact I|apply chk_vf].
+  - destruct (b =? 0); [exact I|]. destruct (_ && _); exact I.
+  - destruct (_ && _); [apply chk_vf|exact I].
+  - destruct (_ && _); exact I.
+Qed.
+Lemma unarith_vf o a : val_or_fail (unarith o a).
+Proof. destruct o; cbn; try apply chk_vf; exact I. Qed.
+Lemma coerce_vf t v : val_or_fail (coerce t v).
+Proof. unfold coerce. destruct (_ && _); [exact I|]. destruct (in_range t v); exact I. Qed.
+Lemma vf_lift {A} (c : ctl A) : val_or_fail c -> vf (lift c). Proof. intros H s. exact H. Qed.
+Lemma vf_read x i : vf (m_read x i).
+Proof. intros s. unfold m_read. destruct (get_entry x s); [|exact I]. destruct (flat_index _ _ _); exact I. Qed.
+Lemma vf_eval_list ev es : (forall e, vf (ev e)) -> vf (eval_list ev es).
+Proof.
+  intros H. induction es as [|e r IH]; cbn [eval_list]; [apply vf_ret|].
+  apply vf_bind; [apply H|]. intros v. apply vf_bind; [exact IH|]. intros vs. apply vf_ret.
+Qed.
+Lemma vf_eval_args ev ps es : (forall e, vf (ev e)) -> vf (eval_args ev ps es).
+Proof.
+  intros H. revert ps. induction es as [|e r IH]; intros ps; cbn [eval_args]; [apply vf_ret|].
+  apply vf_bind; [apply H|]. intros v. destruct ps as [|p pr].
+  - apply vf_bind; [apply IH|]. intros. apply vf_ret.
+  - apply vf_bind; [apply vf_lift, coerce_vf|]. intros. apply vf_bind; [apply IH|]. intros. apply vf_ret.
+Qed.
+Lemma call_result_vf rt c : val_or_fail (call_result rt c).
+Proof. destruct c as [u| | |[v|]|e]; cbn; try exact I. destruct rt; [apply coerce_vf|exact I]. Qed.
+
+Lemma vf_call_bracket f rt (m : M unit) : vf (m_push_frame f ;;; finally (map_ctl (call_result rt) m) pop_frame_st).
+Proof.
+  intros s. unfold bind, m_push_frame, finally, map_ctl.
+  match goal with |- context [m ?st] => destruct (m st) as [c0 s0] end. cbn. apply call_result_vf.
+Qed.
+
+Lemma eval_vf funcs n : forall e, vf (eval funcs n e).
+Proof.
+  induction n as [|k IH]; intros e; [apply vf_fail|].
+  destruct e; cbn [eval].
+  - apply vf_ret.
+  - apply vf_read.
+  - apply vf_bind; [apply IH|]. intros. apply vf_lift, unarith_vf.
+  - apply vf_bind; [apply IH|]. intros. apply vf_bind; [apply IH|]. intros. apply vf_lift, arith_vf.
+  - apply vf_bind; [apply IH|]. intros x. destruct (x =? 0); [apply vf_ret|]. apply vf_bind; [apply IH|]. intros. apply vf_ret.
+  - apply vf_bind; [apply IH|]. intros x. destruct (x =? 0); [|apply vf_ret]. apply vf_bind; [apply IH|]. intros. apply vf_ret.
+  - apply vf_bind; [apply IH|]. intros x. destruct (x =? 0); apply IH.
+  - destruct (find_func f funcs) as [fd|]; [|apply vf_fail].
+    match goal with |- vf (if ?c then _ else _) => destruct c end; [apply vf_fail|].
+    apply vf_bind; [apply vf_eval_args; exact IH|]. intros vs. apply vf_call_bracket.
+  - apply vf_bind; [apply vf_eval_list; exact IH|]. intros. apply vf_read.
+Qed.
+
+Lemma bound_scope_firstn ps vs acc : bound_scope (firstn (List.length vs) ps) vs acc = bound_scope ps vs acc.
+Proof.
+  revert vs acc. induction ps as [|p pr IH]; intros vs acc; [destruct vs; reflexivity|].
+  destruct vs as [|v vr]; [reflexivity|]. cbn. apply IH.
+Qed.
+Lemma bound_scope_names ps vs acc x :
+  assoc x (bound_scope ps vs acc) <> None -> assoc x acc <> None \/ In x (map pname ps).
+Proof.
+  revert vs acc. induction ps as [|p pr IH]; intros vs acc; [destruct vs; cbn; tauto|].
+  destruct vs as [|v vr]; [cbn; tauto|]. cbn [bound_scope map]. intros H. apply IH in H as [H|H].
+  - cbn in H. destruct (Nat.eqb x (pname p)) eqn:E; [apply Nat.eqb_eq in E; right; left; congruence|left; exact H].
+  - right. right. exact H.
+Qed.
